@@ -225,6 +225,10 @@ class Monitor(object):
                 # an address that was a member before comes back as a fresh, empty process (allowed by the operator
                 # discipline of C10): known finding KF-C10-1 - from here on cluster-wide safety records are its symptoms
                 self.trigger.setdefault('kf_c10_1', self.step)
+            if sim.exc and self.journaled:
+                # the constructor raised: the node cannot come back from what it left on disk
+                self.rec('C06', 'node %d cannot be started again from its journal / dump files: %s'
+                         % (ev[1], getattr(sim, 'exc_repr', sim.exc)))
             self.down_logs.pop(ev[1], None)
             self.prev.pop(ev[1], None)
             self.prev_log.pop(ev[1], None)
@@ -268,10 +272,20 @@ class Monitor(object):
                 if kind == 0 and sim.cmds.get(a, {}).get('raises'):
                     self.rec('C12', 'node %d does not get past position %d (commit index %d): the command there raises %s'
                              % (nid, ap + 1, cm, SIM.RAISED[a % len(SIM.RAISED)].__name__))
+        log = self.log_of(o)
+        if any(log[i + 1][1] != log[i][1] + 1 for i in range(len(log) - 1)):
+            # every check below addresses entries by position: a log that is not a run of consecutive positions (a damaged
+            # journal handed back after a restart) is itself the violation
+            key = ('nonconsecutive', nid, self.incarnation.get(nid, 0))
+            if key not in self.stuck_reported:
+                self.stuck_reported[key] = True
+                self.rec('C06' if self.journaled else 'C04',
+                         'node %d holds a log that is not a run of consecutive positions: %r' % (nid, [e[1] for e in log][:20]))
+            return
         self.check_c06_c07(rec, sim, ev, nid, o)
+        self.check_version(rec, sim, nid, o)
         self.check_c10(rec, sim, nid, o)
         self.check_c18_c20(rec, sim, ev, nid, o)
-        log = self.log_of(o)
         commit, applied = g(o, 'raftCommitIndex'), g(o, 'raftLastApplied')
         pc, pa = self.prev.get(nid, (None, None))
         # C04: indices only advance while the node runs
@@ -403,6 +417,8 @@ class Monitor(object):
                 agree_from = None
                 for idx in range(hi, lo - 1, -1):
                     a_, b_ = self.entry_at(log, idx), self.entry_at(lm, idx)
+                    if a_ is None or b_ is None or a_[1] != idx or b_[1] != idx:
+                        break              # the other node's log is not a run of consecutive positions (reported at its own step)
                     if agree_from is None:
                         if a_[2] == b_[2]:
                             agree_from = idx
@@ -418,6 +434,27 @@ class Monitor(object):
     # ---- C10: membership ---------------------------------------------------------------------------
     def members_of(self, o):
         return set(SIM.nid_of(x) for x in g(o, 'otherNodes'))
+
+    def check_version(self, rec, sim, nid, o):
+        """C09 / C17: the enabled code version of a node is the one the VERSION commands of its applied prefix define -
+        whether the prefix was executed from the log, restored from a dump file or installed from a snapshot"""
+        applied = g(o, 'raftLastApplied')
+        want = 0
+        for idx in sorted(self.cmd_at):
+            if idx > applied:
+                break
+            kind, a, b = sim.cid_of_command(self.cmd_at[idx])
+            if kind == 3:
+                want = a
+        if applied > 1 and not all(i in self.cmd_at for i in range(2, applied + 1)):
+            return                      # positions of the prefix this monitor never saw applied anywhere: no verdict
+        have = g(o, 'enabledCodeVersion')
+        if have != want:
+            key = ('ver', nid, self.incarnation.get(nid, 0), applied)
+            if key not in self.stuck_reported:
+                self.stuck_reported[key] = True
+                self.rec('C09', 'node %d has applied the log up to position %d, where the enabled code version is %d, but reports version %d'
+                         % (nid, applied, want, have))
 
     def check_c10(self, rec, sim, nid, o):
         if not rec.cfg.get('dyn') or nid >= RO_BASE:
